@@ -34,9 +34,9 @@ func rbytes(rng *rand.Rand, n int) []byte {
 	return b
 }
 
-func pickInt(rng *rand.Rand, xs ...int) int          { return xs[rng.Intn(len(xs))] }
-func pickU64(rng *rand.Rand, xs ...uint64) uint64    { return xs[rng.Intn(len(xs))] }
-func pickStr(rng *rand.Rand, xs ...string) string    { return xs[rng.Intn(len(xs))] }
+func pickInt(rng *rand.Rand, xs ...int) int                     { return xs[rng.Intn(len(xs))] }
+func pickU64(rng *rand.Rand, xs ...uint64) uint64               { return xs[rng.Intn(len(xs))] }
+func pickStr(rng *rand.Rand, xs ...string) string               { return xs[rng.Intn(len(xs))] }
 func pickDur(rng *rand.Rand, xs ...time.Duration) time.Duration { return xs[rng.Intn(len(xs))] }
 
 // nTwists decides how many degenerate twists a generated value gets.
